@@ -169,6 +169,63 @@ type Program struct {
 	Extra       []lab.KV `json:"extra,omitempty"`
 	Body        Payload  `json:"body"`
 	Parts       []int    `json:"parts,omitempty"` // Write partition (sums to Body.Len); empty = one Write (none when Len == 0)
+	// Flush schedule of the handler (http.Flusher, as a streaming handler or a reverse proxy relaying a
+	// response of unknown length uses it). The statement does not mention flushing: whatever the handler
+	// flushes, what the client decodes must be the handler's body.
+	FlushBefore bool  `json:"flush_before,omitempty"` // Flush after the header was set / WriteHeader was called, before the first Write
+	FlushAfter  []int `json:"flush_after,omitempty"`  // 0-based indices of the Writes of Parts that are directly followed by Flush
+	// WriteSize > 0: the body is written in Writes of WriteSize bytes (the last one shorter) instead of Parts
+	// - the copy loop of a relay (httputil.ReverseProxy copies through a 32 KiB buffer); every FlushEvery-th
+	// Write is followed by Flush (0 = none).
+	WriteSize  int `json:"write_size,omitempty"`
+	FlushEvery int `json:"flush_every,omitempty"`
+}
+
+// writes returns the lengths of the handler's Writes for a body of n bytes.
+func (p *Program) writes(n int) []int {
+	if n == 0 {
+		return nil
+	}
+	if p.WriteSize > 0 {
+		out := make([]int, 0, n/p.WriteSize+1)
+		for off := 0; off < n; off += p.WriteSize {
+			out = append(out, min(p.WriteSize, n-off))
+		}
+		return out
+	}
+	if len(p.Parts) == 0 {
+		return []int{n}
+	}
+	return p.Parts
+}
+
+// flushedAfter reports whether Write #i (0-based) is directly followed by Flush.
+func (p *Program) flushedAfter(i int) bool {
+	if p.WriteSize > 0 {
+		return p.FlushEvery > 0 && (i+1)%p.FlushEvery == 0
+	}
+	for _, k := range p.FlushAfter {
+		if k == i {
+			return true
+		}
+	}
+	return false
+}
+
+// flushPoints returns, for a body of n bytes, the number of body bytes written so far at each Flush.
+func (p *Program) flushPoints(n int) []int {
+	var out []int
+	if p.FlushBefore {
+		out = append(out, 0)
+	}
+	off := 0
+	for i, w := range p.writes(n) {
+		off += w
+		if p.flushedAfter(i) {
+			out = append(out, off)
+		}
+	}
+	return out
 }
 
 type armed struct {
@@ -210,14 +267,22 @@ func (s *Stub) ServeHTTP(w http.ResponseWriter, r *http.Request) {
 	if p.Status != 0 {
 		w.WriteHeader(p.Status)
 	}
-	parts := p.Parts
-	if len(parts) == 0 && len(a.body) > 0 {
-		parts = []int{len(a.body)}
+	flush := func() {
+		// a wrapper that does not offer http.Flusher leaves the handler nothing to call
+		if f, ok := w.(http.Flusher); ok {
+			f.Flush()
+		}
+	}
+	if p.FlushBefore {
+		flush()
 	}
 	off := 0
-	for _, n := range parts {
+	for i, n := range p.writes(len(a.body)) {
 		_, _ = w.Write(a.body[off : off+n])
 		off += n
+		if p.flushedAfter(i) {
+			flush()
+		}
 	}
 }
 
@@ -646,7 +711,14 @@ func Judge(f *Facts, got *lab.RawResponse, err error) Verdict {
 		}
 		dec, derr := gunzipAll(got.Body)
 		if derr != nil {
-			return fail("RT: client received Content-Encoding: gzip but the %d body bytes are not one complete gzip stream: %v", len(got.Body), derr)
+			what := ""
+			if bytes.Equal(got.Body, f.Body) {
+				what = " - they are the backend's body itself, unmodified, delivered under a gzip label"
+				if !underCap {
+					what += fmt.Sprintf(" (the body is %d bytes over the %d-byte buffering cap and must not be announced as compressed)", len(f.Body)-bufferCap, bufferCap)
+				}
+			}
+			return fail("RT: client received Content-Encoding: gzip but the %d body bytes are not one complete gzip stream: %v%s", len(got.Body), derr, what)
 		}
 		content = dec
 	default:
